@@ -115,12 +115,13 @@ def gen_instance(rng, allow_ext=True):
             ss.insert(rng.randrange(len(ss) + 1), 0)
         inst['dims'] = dict(inst['dims'], s=ss)
     if kind in ('cpl', 'cp') and allow_ext and rng.random() < 0.2:
-        inner = gen_instance(rng, allow_ext=False)
-        while inner['kind'] in ('cpl', 'cp'):
-            inner = gen_instance(rng, allow_ext=False)
+        inner = gen_instance(rng, allow_ext=False)      # any native entry point, cpl/cp included (no further nesting)
         iopts = gen_opts(rng, 1.0)
         iopts['show_progress'] = False      # what the inner solve prints would be attributed to the outer call
         iopts.pop('debug', None)
+        if invalid_reason(iopts, inner) is not None:       # (one-sided tolerances can combine into an invalid pair)
+            iopts.pop('abstol', None)
+            iopts.pop('reltol', None)
         inst['nested'] = {'inst': inner, 'at': sorted(rng.sample(range(2, 14), rng.randint(1, 3))), 'opts': iopts}
     inst['solver'] = solver
     if inst.get('p') == 0 and kind not in ('gp', 'op') and solver is None and rng.random() < 0.25:
@@ -287,7 +288,10 @@ def prepare(inst, m):
 
             def hook(k, _inner=inner, _at=at, _o=iopts):
                 if k in _at:
-                    do_call(_inner, materialise(_inner), dict(_o))
+                    try:
+                        do_call(_inner, materialise(_inner), dict(_o))
+                    except (ValueError, ArithmeticError, TypeError):
+                        pass        # the inner problem's own business (rank-deficient data, ...): the user's F goes on
             F.hook = hook
     return m
 
@@ -521,6 +525,9 @@ def _reference_child(inst, kw_opts, global_opts):
     from cvxopt import solvers
     solvers.options.clear()
     solvers.options.update(global_opts)
+    # the reference is the call on its own: a solve that the user's F starts in the middle of this one (the nested
+    # instance) is an independent call and must not change anything about the outer result
+    inst = {k_: v_ for k_, v_ in inst.items() if k_ != 'nested'}
     m = materialise(inst)
     buf = io.StringIO()
     try:
